@@ -759,10 +759,17 @@ class Wigner:
         else:
             Y = np.zeros(self.Ysize, dtype=complex)
 
+            # The sYlm array starts at self.ell_min and the mode weights at ell_min; contract over
+            # the ell values they share (weights below self.ell_min <= |s| are zero by construction)
+            ell_lo = max(self.ell_min, ell_min)
+            i1 = Yindex(ell_lo, -ell_lo, ell_min)
+            j1 = Yindex(ell_lo, -ell_lo, self.ell_min)
+            n = Ysize(ell_lo, ell_max)
+
             # Loop over all input quaternions
             for i_R in range(quaternions.shape[0]):
                 self.sYlm(spin_weight, quaternions[i_R], out=Y, workspace=workspace)
-                np.matmul(mode_weights, Y, out=function_values[..., i_R])
+                np.matmul(mode_weights[:, i1:i1+n], Y[j1:j1+n], out=function_values[..., i_R])
 
         return function_values.reshape(modes.shape[:-1] + R.shape[:-1])
 
